@@ -14,6 +14,7 @@ import (
 
 	remoteexecution "github.com/bazelbuild/remote-apis/build/bazel/remote/execution/v2"
 	"github.com/buildbarn/bb-remote-execution/pkg/scheduler"
+	"github.com/buildbarn/bb-remote-execution/pkg/scheduler/initialsizeclass"
 	"github.com/buildbarn/bb-remote-execution/pkg/scheduler/invocation"
 	"github.com/buildbarn/bb-remote-execution/pkg/scheduler/platform"
 	"github.com/buildbarn/bb-remote-execution/pkg/scheduler/routing"
@@ -331,6 +332,11 @@ func newWorld(r *simrun.Run, prop string) *world {
 	}
 
 	w.analyzer = newScriptedAnalyzer(w)
+	if !w.fair && t.Bool(1, 5) {
+		// One run in five decides size classes with the repository's own
+		// FallbackAnalyzer instead of the scripted one.
+		w.analyzer.real = initialsizeclass.NewFallbackAnalyzer(initialsizeclass.NewActionTimeoutExtractor(30*time.Minute, 24*time.Hour))
+	}
 	baseExtractors := []invocation.KeyExtractor{invocation.CorrelatedInvocationsIDKeyExtractor, invocation.ToolInvocationIDKeyExtractor, mnemonicKeyExtractor{}}
 	var router routing.ActionRouter = routing.NewSimpleActionRouter(platform.ActionKeyExtractor, baseExtractors, w.analyzer)
 	if !w.fair && t.Bool(1, 2) {
